@@ -22,6 +22,7 @@ import (
 	"fmt"
 	"math"
 	"math/bits"
+	"os"
 	"runtime"
 	"sort"
 	"strings"
@@ -86,7 +87,7 @@ type sigSpec struct {
 
 type evt struct {
 	At    int    `json:"at"`            // step index
-	Kind  string `json:"k"`             // dev | small | jump | flip | miss | err | vote
+	Kind  string `json:"k"`             // dev | exact | small | jump | flip | miss | err | vote
 	Sig   int    `json:"s,omitempty"`   // signal index (mod number of signals)
 	Dir   int    `json:"dir,omitempty"` // >=0 up, <0 down
 	Delta int    `json:"d,omitempty"`   // dev: -1,0,+1 around the threshold
@@ -104,6 +105,7 @@ type govChange struct {
 	MaxMul   int64 `json:"max_mul,omitempty"`  // new MaxInterval = MinInterval * MaxMul (feed intervals follow at the next feed update)
 	MinDev   int64 `json:"min_dev,omitempty"`  // new MinDeviationBasisPoint
 	DevMul   int64 `json:"dev_mul,omitempty"`  // new MaxDeviationBasisPoint = (new or current) MinDev * DevMul
+	MaxDev   int64 `json:"max_dev,omitempty"`  // new MaxDeviationBasisPoint (absolute; wins over DevMul)
 	Quorum   int   `json:"quorum,omitempty"`   // new PriceQuorum: 1 "0.30", 2 "0.5", 3 "1"
 	Follow   []evt `json:"follow,omitempty"`   // events; At = offset in steps from the first step that sees the new params
 }
@@ -131,6 +133,10 @@ type loopCase struct {
 }
 
 func genPrice(rt *rapid.T) uint64 {
+	if gen.Chance(rt, "paligned", 7, 20) {
+		// a multiple of 10000: any whole number of basis points of it is a whole number of price units
+		return 10000 * uint64(gen.Range(rt, "pk", 1, 50000))
+	}
 	switch gen.Pick(rt, "pclass", 25, 35, 15, 20, 5) {
 	case 0:
 		return uint64(gen.Range(rt, "psmall", 1, 20000))
@@ -143,6 +149,39 @@ func genPrice(rt *rapid.T) uint64 {
 	default:
 		return uint64(gen.Range(rt, "ptiny", 0, 3))
 	}
+}
+
+// genDevParams draws Min/MaxDeviationBasisPoint. A feed's threshold is max(MaxDev/powerFactor, MinDev) with power
+// factors 1..12, so uniform draws over 1..3000 give thresholds all over the range, most of them not round numbers.
+func genDevParams(rt *rapid.T) (minDev, maxDev int64) {
+	switch gen.Pick(rt, "devk", 20, 45, 20, 15) {
+	case 0: // the round values of the shipped configuration and of the existing tests
+		minDev = gen.OneOf[int64](rt, "mindev", 1, 5, 50, 50, 100)
+		maxDev = minDev * gen.OneOf[int64](rt, "devmul", 1, 2, 6, 30)
+	case 1:
+		minDev = int64(gen.Range(rt, "mindevu", 50, 3000))
+	case 2:
+		minDev = int64(gen.Range(rt, "mindevlow", 1, 200))
+	default:
+		minDev = gen.OneOf[int64](rt, "mindevb", 1, 49, 50, 51, 2999, 3000)
+	}
+	if maxDev == 0 {
+		switch gen.Pick(rt, "maxdevk", 30, 50, 20) {
+		case 0:
+			maxDev = minDev // every feed has the threshold MinDev
+		case 1:
+			maxDev = int64(gen.Range(rt, "maxdevu", int(minDev), 3000))
+		default:
+			maxDev = 3000
+		}
+	}
+	if maxDev > 3000 {
+		maxDev = 3000
+	}
+	if maxDev < minDev {
+		maxDev = minDev
+	}
+	return
 }
 
 func genLoop(rt *rapid.T) loopCase {
@@ -174,8 +213,7 @@ func genLoop(rt *rapid.T) loopCase {
 	}
 	c.Grace = gen.OneOf[int64](rt, "grace", 10, 15, 30, 30, 60)
 	c.ABTD = gen.OneOf[int64](rt, "abtd", 10, 30, 60, 60)
-	c.MinDev = gen.OneOf[int64](rt, "mindev", 1, 5, 50, 50, 100)
-	c.MaxDev = c.MinDev * gen.OneOf[int64](rt, "devmul", 1, 2, 6, 30)
+	c.MinDev, c.MaxDev = genDevParams(rt)
 	c.UpdEvery = int64(gen.Range(rt, "upd", 15, 150))
 	n := rapid.IntRange(1, 6).Draw(rt, "nsig")
 	anyIn := false
@@ -203,7 +241,10 @@ func genLoop(rt *rapid.T) loopCase {
 		if gen.Chance(rt, "edir", 1, 2) {
 			e.Dir = -1
 		}
-		switch gen.Pick(rt, "ekind", 40, 10, 5, 22, 10, 3, 10) {
+		switch gen.Pick(rt, "ekind", 25, 10, 5, 22, 10, 3, 10, 35) {
+		case 7:
+			e.Kind = "exact"
+			e.Delta = gen.OneOf(rt, "xdelta", 0, 0, 0, 0, 0, -1, 1)
 		case 0:
 			e.Kind = "dev"
 			e.Delta = gen.OneOf(rt, "delta", -1, 0, 0, 0, 1)
@@ -306,8 +347,7 @@ func genGov(rt *rapid.T, c *loopCase) {
 		case 3:
 			ch.MaxMul = gen.OneOf[int64](rt, "gmaxmul", 1, 2, 3, 5, 10)
 		case 4:
-			ch.MinDev = gen.OneOf[int64](rt, "gmindev", 1, 5, 50, 100)
-			ch.DevMul = gen.OneOf[int64](rt, "gdevmul", 1, 2, 6, 30)
+			ch.MinDev, ch.MaxDev = genDevParams(rt)
 		default:
 			ch.Quorum = gen.Range(rt, "gquorum", 1, 3)
 		}
@@ -331,7 +371,10 @@ func genGov(rt *rapid.T, c *loopCase) {
 			if gen.Chance(rt, "fdir", 1, 2) {
 				e.Dir = -1
 			}
-			switch gen.Pick(rt, "fkind", 70, 22, 8) {
+			switch gen.Pick(rt, "fkind", 40, 20, 8, 32) {
+			case 3:
+				e.Kind = "exact"
+				e.Delta = gen.OneOf(rt, "fxdelta", 0, 0, 0, 0, -1, 1)
 			case 0:
 				e.Kind = "dev"
 				e.Delta = gen.OneOf(rt, "fdelta", 0, 0, 1)
@@ -450,6 +493,9 @@ func (c *loopCase) sanitize() {
 		}
 		if g.DevMul != 0 {
 			clamp(&g.DevMul, 1, 30)
+		}
+		if g.MaxDev != 0 {
+			clamp(&g.MaxDev, 1, 3000)
 		}
 		clampI(&g.Quorum, 0, 3)
 		if len(g.Follow) > 64 {
@@ -848,6 +894,13 @@ func runLoop(c loopCase) *pbt.Verdict {
 	prevCooldown := int64(-1)    // CooldownTime before the latest raise (-1: no raise so far)
 	var nParamChanges, nCooldownUp, nCooldownDown, nRaced, nWaitRaised, nWaitRaisedDev, nEarlierLowered, nGovFollow int64
 	var nOtherParam int64
+	thrSeen := map[int64]bool{} // deviation thresholds (bps) current feeds had during the history
+	var nExactSteps, nExactDue, nExactEmit, nExactSecond int64
+	type exactWait struct {
+		e        evt
+		deadline int
+	}
+	exactPending := map[string]exactWait{} // signals brought to an aligned price that still owe their exact-threshold move
 	nextBlockStep, blockIdx, subIdx, evIdx := 0, 0, 0, 0
 	var nStatusEmit, nDevEmit, nSlotEmit, nFirstEmit, nEmitted, nSubs, nLegitDeact, nVotesOK, nHeld int64
 	usedLarge := false
@@ -898,6 +951,39 @@ func runLoop(c loopCase) *pbt.Verdict {
 		devOf := map[string]int64{}
 		for _, f := range cf.Feeds {
 			devOf[f.SignalID] = refDeviationBps(f.Power, params.MinDeviationBasisPoint, params.MaxDeviationBasisPoint)
+			thrSeen[devOf[f.SignalID]] = true
+		}
+
+		// (a0) second half of earlier "exact" events: the aligned price has been accepted by the chain, so the move of
+		// exactly the threshold (relative to that accepted price) can be made now
+		for _, id := range sortedWaits(exactPending) {
+			wt := exactPending[id]
+			sv := svc.sigs[id]
+			op, ok := oldPrices[id]
+			d := uint64(devOf[id])
+			switch {
+			case k > wt.deadline || sv == nil:
+				delete(exactPending, id)
+			case ok && op.SignalPriceStatus == feedstypes.SIGNAL_PRICE_STATUS_AVAILABLE && sv.status == stAvailable && op.Price == sv.price && !inFlight[id]:
+				delete(exactPending, id)
+				base := op.Price
+				if d == 0 || base == 0 || base >= exactPriceLimit/2 || (base*d)%10000 != 0 || base*d < 10000 {
+					v.Count("exact_second_half_not_aligned", 1) // the threshold changed in between
+					break
+				}
+				amt := base * d / 10000
+				if wt.e.Delta < 0 {
+					amt--
+				} else if wt.e.Delta > 0 {
+					amt++
+				}
+				if wt.e.Dir < 0 && amt < base {
+					sv.price = base - amt
+				} else {
+					sv.price = base + amt
+				}
+				nExactSecond++
+			}
 		}
 
 		// (a) events of this step
@@ -939,6 +1025,28 @@ func runLoop(c loopCase) *pbt.Verdict {
 					amt++
 				}
 				move(amt)
+			case "exact":
+				// a move of EXACTLY dev basis points of the last accepted price (+-1 unit with Delta). That needs
+				// base*dev to be a multiple of 10000; if it is not, the price goes to a multiple of 10000 at least
+				// one threshold away instead, which becomes the (aligned) last accepted price for the next one.
+				if base > 0 && base < exactPriceLimit/2 && (base*uint64(dev))%10000 == 0 && base*uint64(dev) >= 10000 {
+					amt := base * uint64(dev) / 10000
+					if e.Delta < 0 {
+						amt--
+					} else if e.Delta > 0 {
+						amt++
+					}
+					move(amt)
+				} else if base < exactPriceLimit/2 {
+					if e.Dir < 0 && base > thr+20000 {
+						s.price = (base - thr) / 10000 * 10000
+					} else {
+						s.price = ((base+thr)/10000 + 1) * 10000
+					}
+					exactPending[id] = exactWait{e: e, deadline: k + 200}
+				} else {
+					move(thr)
+				}
 			case "small":
 				if thr > 1 {
 					q, _ := mulDivFloor(thr-1, uint64(((e.Frac%1001)+1001)%1001), 1000)
@@ -1090,6 +1198,26 @@ func runLoop(c loopCase) *pbt.Verdict {
 				dv = refDeviated(devOf[s], old.Price, newP)
 			}
 			urgent := newSt != stUnavailable || now.Unix() > T+f.Interval-refUrgentOffset
+			// the move is EXACTLY the threshold: |new-old| * 10000 == d * old (128-bit integer comparison)
+			exact := false
+			if dv == triYes && devOf[s] > 0 && old.Price < exactPriceLimit && newP < exactPriceLimit {
+				diff := newP - old.Price
+				if old.Price > newP {
+					diff = old.Price - newP
+				}
+				h1, l1 := bits.Mul64(diff, 10000)
+				h2, l2 := bits.Mul64(uint64(devOf[s]), old.Price)
+				exact = h1 == h2 && l1 == l2
+			}
+			if exact {
+				nExactSteps++
+				if required && !inFlightBefore[s] && past && now.Before(time.Unix(T+f.Interval*stmtSlotStart/100, 0)) {
+					nExactDue++ // only the deviation rule makes the daemon submit at this step
+				}
+				if isEmitted {
+					nExactEmit++
+				}
+			}
 			if isEmitted {
 				switch {
 				case statusChanged:
@@ -1195,6 +1323,12 @@ func runLoop(c loopCase) *pbt.Verdict {
 			}
 			if g.DevMul > 0 {
 				np.MaxDeviationBasisPoint = np.MinDeviationBasisPoint * g.DevMul
+			}
+			if g.MaxDev > 0 {
+				np.MaxDeviationBasisPoint = g.MaxDev
+				if np.MaxDeviationBasisPoint < np.MinDeviationBasisPoint {
+					np.MaxDeviationBasisPoint = np.MinDeviationBasisPoint
+				}
 			}
 			if g.Quorum > 0 {
 				np.PriceQuorum = []string{"0.30", "0.30", "0.5", "1"}[g.Quorum]
@@ -1452,12 +1586,40 @@ func runLoop(c loopCase) *pbt.Verdict {
 	cls(nWaitRaised > 0, "cooldown-raised-with-pending-reason")
 	cls(nEarlierLowered > 0, "cooldown-lowered-and-used")
 	cls(nRaced > 0, "submission-raced-with-param-change")
+	nonRound := 0
+	for d := range thrSeen {
+		if d%50 != 0 {
+			nonRound++
+		}
+		if os.Getenv("VERIF_C20_THR_HIST") != "" { // development aid: histogram of thresholds over a run
+			v.Count(fmt.Sprintf("thr=%04d", d), 1)
+		}
+	}
+	v.Count("distinct_thresholds", int64(len(thrSeen)))
+	v.Count("distinct_non_round_thresholds", int64(nonRound))
+	v.Count("steps_price_exactly_at_threshold", nExactSteps)
+	v.Count("steps_price_exactly_at_threshold_due_by_deviation_only", nExactDue)
+	v.Count("emit_exactly_at_threshold", nExactEmit)
+	v.Count("exact_moves_after_alignment", nExactSecond)
+	cls(nonRound > 0, "deviation-threshold-non-round")
+	cls(nExactSteps > 0, "move-exactly-at-threshold")
+	cls(nExactDue > 0, "move-exactly-at-threshold-due-before-slot")
+	cls(nExactEmit > 0, "move-exactly-at-threshold-submitted")
 	v.Sample = map[string]any{"steps": c.Steps, "sigs": nsig, "min_interval": c.MinI, "cooldown": c.Cooldown, "submissions": nSubs,
 		"emit_status": nStatusEmit, "emit_deviation": nDevEmit, "emit_slot": nSlotEmit, "events": len(c.Events), "blocks": ch.Height}
 	return v
 }
 
 func voter0(ch *sim.Chain) *sim.Account { return ch.Vals[0] }
+
+func sortedWaits[T any](m map[string]T) []string {
+	out := make([]string, 0, len(m))
+	for k := range m {
+		out = append(out, k)
+	}
+	sort.Strings(out)
+	return out
+}
 
 func filterFlights(fs []*flight, keep func(*flight) bool) []*flight {
 	out := fs[:0:0]
